@@ -157,6 +157,9 @@ fn run_program(case: &Case) -> Vec<String> {
 fn race_rounds(full: bool) -> usize {
     let specs = [
         Spec::Posix(0),
+        // Three explicit transitions and a footer rule: instants 0, 1, 2 of
+        // the probe set fall into three different table entries.
+        Spec::TzifFooter(1),
         Spec::TzifSynth { k: 1, tr: true },
         Spec::TzifReal(10),
     ];
@@ -164,9 +167,16 @@ fn race_rounds(full: bool) -> usize {
     // drop/drop and clone+drop/clone+drop.
     let specs = if full { &specs[..] } else { &specs[..2] };
     let threads: &[usize] = if full { &[2, 3] } else { &[2] };
-    let patterns: &[u8] = if full { &[0, 1, 2, 3] } else { &[0, 1, 3] };
+    let patterns: &[u8] = if full { &[0, 1, 2, 3, 4, 5] } else { &[0, 1, 3, 4] };
     let mut rounds = 0;
     for spec in specs.iter() {
+        // What a lone thread gets (from an instance of its own).
+        let want_at: Vec<Vec<String>> = {
+            let lone = interp::make_tz(spec);
+            (0..2u8)
+                .map(|q| (0..8u8).map(|t| interp::answer(&lone, q, t)).collect())
+                .collect()
+        };
         for &n in threads {
             for &pattern in patterns {
                 // The zone under test is not queried before the threads start
@@ -174,6 +184,31 @@ fn race_rounds(full: bool) -> usize {
                 // so safely when the first uses race); the expected answer
                 // comes from a separate instance.
                 let want = interp::answer(&interp::make_tz(spec), 1, 3);
+                // Patterns 4 and 5: every thread asks about *other* instants
+                // than its neighbours (other transitions of the same zone),
+                // repeatedly, and each answer must be the one a lone thread
+                // gets. Pattern 5 adds a thread hammering a different zone.
+                let foreign_spec = Spec::TzifReal(8);
+                let foreign_want: Vec<String> = if pattern == 5 {
+                    let lone = interp::make_tz(&foreign_spec);
+                    (0..8u8).map(|t| interp::answer(&lone, 1, t)).collect()
+                } else {
+                    vec![]
+                };
+                let foreign = if pattern == 5 {
+                    let tz = interp::make_tz(&foreign_spec);
+                    let want = foreign_want.clone();
+                    Some(std::thread::spawn(move || {
+                        for round in 0..2u8 {
+                            for t in [0u8, 6, 1, 3] {
+                                let got = interp::answer(&tz, 1, t);
+                                assert_eq!(got, want[t as usize], "answer of a zone changed while another zone was queried (round {round})");
+                            }
+                        }
+                    }))
+                } else {
+                    None
+                };
                 let tz = interp::make_tz(spec);
                 let handles: Vec<TimeZone> = (0..n).map(|_| tz.clone()).collect();
                 drop(tz);
@@ -182,9 +217,28 @@ fn race_rounds(full: bool) -> usize {
                 for (i, h) in handles.into_iter().enumerate() {
                     let b = barrier.clone();
                     let want = want.clone();
+                    let want_at = want_at.clone();
                     joins.push(std::thread::spawn(move || {
                         b.wait();
                         match pattern {
+                            4 | 5 => {
+                                // Each thread stays with one instant, and
+                                // neighbours with other ones (instants 0, 1
+                                // and 2 lie in three different entries of the
+                                // transition table of the footer zones), so
+                                // that any per-zone or global "last lookup"
+                                // state flips back and forth between them.
+                                let t = (i % 3) as u8;
+                                for round in 0..6u8 {
+                                    let q = round % 2;
+                                    let got = interp::answer(&h, q, t);
+                                    assert_eq!(
+                                        got, want_at[q as usize][t as usize],
+                                        "query {q} at instant {t} answered differently while other threads queried the same zone"
+                                    );
+                                }
+                                drop(h);
+                            }
                             0 => drop(h),
                             1 => {
                                 let c = h.clone();
@@ -208,6 +262,9 @@ fn race_rounds(full: bool) -> usize {
                 }
                 for j in joins {
                     j.join().expect("race thread panicked");
+                }
+                if let Some(f) = foreign {
+                    f.join().expect("race thread (other zone) panicked");
                 }
                 rounds += 1;
             }
